@@ -70,6 +70,8 @@ def make_base(kind, **kw):
         return MongoStorage(FakeMongoClient(kw.get('version', '4.4.0')), 'db')
     if kind == 'mongo40':
         return MongoStorage(FakeMongoClient('4.0.0'), 'db')
+    if kind == 'mongo419':
+        return MongoStorage(FakeMongoClient('4.1.9'), 'db')     # the last release without $regexMatch
     raise ValueError(kind)
 
 
